@@ -444,7 +444,7 @@ def check(tier):
     return run_check(
         PROP, PROP_V, tier, gen_cases,
         "the trace of public reads differs from the abstract JSON document specification (run_spec)",
-        "seeded random histories of 1..50 operations (23 operation families, every overload variant) over 3 variables and their members up to depth 3, keys incl. empty / NUL / quote, payloads of every kind incl. 64-bit extremes, exact-quarter reals and numeric / keyword strings; after every step all three variables are dumped through the public getters and Stringify; non-trivial = has a two-value operation, removal or compress")
+        "seeded random histories of 1..50 operations (23 operation families, every overload variant) over 3 variables and their members up to depth 3, keys incl. empty / NUL / quote, payloads of every kind incl. 64-bit extremes, exact-quarter reals and numeric / keyword strings; after every step all three variables are dumped through the public getters and Stringify; every READ additionally calls the getters that each kind answers with nothing (GetValue by index / key / view, First, Last, GetKey, SetKeyCharAndLength, CopyKeyByIndexTo, StringStorage, GetStringView, Length on kinds they do not apply to), the non-const GetString / GetObject / GetArray overloads and the three routes to the JSON text (Stringify(stream), the String-returning Stringify(precision), operator<<) -- these are overloads or alternative routes of observations the model already predicts, so they are checked for agreement with those (a disagreement prints '!tag' into the trace, which the model never prints); non-trivial = has a two-value operation, removal or compress")
 
 
 def replay(path):
